@@ -11,6 +11,7 @@ from __future__ import annotations
 import ast
 
 from pv.q import text as qtext
+from pv.q import stmts as q_stmts, has_if, has_stmt
 from pv.model import AnalysisError, walk_no_nested, params, UNKNOWN
 from pv.mustcall import MustCall
 
@@ -190,7 +191,10 @@ def rule_c(model, rep):
     for m, p in (("_encode_user", "user"), ("_encode_realm", "realm")):
         fn = model.func(AP, "_CommonFile." + m)
         rets = [ast.unparse(n.value) for n in ast.walk(fn) if isinstance(n, ast.Return)]
-        rep.check(rets == [f"self._encode_field({p}, '{p}')"], R, site("_CommonFile." + m), "; ".join(rets), f"{m} validates through _encode_field")
+        via = [ast.unparse(c) for c in ast.walk(fn) if isinstance(c, ast.Call) and ast.unparse(c.func) == "self._encode_field"]
+        # every returned value is the validated one: either the call itself or the name it was bound to
+        ok = via == [f"self._encode_field({p}, '{p}')"] and (rets == via or (rets == [p] and has_stmt(fn, f"{p} = self._encode_field({p}, '{p}')")))
+        rep.check(ok, R, site("_CommonFile." + m), "; ".join(rets), f"{m} validates through _encode_field")
     fn = model.func(AP, "HtdigestFile._encode_realm")
     body = [ast.unparse(s) for s in fn.body]
     rep.check(body == ["realm = self._require_realm(realm)", "return self._encode_field(realm, 'realm')"], R, site("HtdigestFile._encode_realm"), " | ".join(body),
@@ -255,8 +259,21 @@ def rule_d(model, rep):
               witness="load_if_changed() after save() reloads needlessly or misses external changes")
     fn = model.func(AP, "_CommonFile.load")
     txt = qtext(fn)
-    rep.check("self._mtime = os.path.getmtime(self._path)" in txt and "self._mtime = 0" in txt, R, site("_CommonFile.load"), "_mtime set on load (0 for foreign paths)",
-              "load remembers the mtime of its own file and 0 for foreign sources")
+    rep.check(("self._mtime = os.path.getmtime(self._path)" in txt or ("mtime = os.path.getmtime(self._path)" in txt and "self._mtime = mtime" in txt)) and "self._mtime = 0" in txt, R, site("_CommonFile.load"),
+              "_mtime set on load (0 for foreign paths)", "load remembers the mtime of its own file and 0 for foreign sources")
+    # the remembered mtime is part of the loaded state: it may change only after the whole input parsed (a failed load changes nothing)
+    for q in ("_CommonFile.load", "_CommonFile.load_string"):
+        f2 = model.func(AP, q)
+        seq = [x for x in q_stmts(f2)]
+        for i, st in enumerate(seq):
+            if isinstance(st, ast.Assign) and ast.unparse(st.targets[0]) == "self._mtime":
+                unit_ap = model.unit(AP)
+                blk_owner = unit_ap.parent(st)
+                blk = next((getattr(blk_owner, f_) for f_ in ("body", "orelse") if isinstance(getattr(blk_owner, f_, None), list) and st in getattr(blk_owner, f_)), [])
+                later_parse = any("_load_lines(" in ast.unparse(x) for x in blk[blk.index(st) + 1:]) if st in blk else False
+                rep.check(not later_parse, R, site(q) + " mtime after parse", f"`{ast.unparse(st)}` precedes the `_load_lines(...)` call of the same block",
+                          "the remembered mtime is updated only after the input parsed completely",
+                          witness="another writer leaves a malformed line: the first load_if_changed() raises (records untouched), the second returns False -- the file's content is never loaded although it changed")
     fn = model.func(AP, "_CommonFile.load_if_changed")
     txt = qtext(fn)
     rep.check("if self._mtime and self._mtime == os.path.getmtime(self._path):\n        return False" in txt, R, site("_CommonFile.load_if_changed"),
@@ -307,6 +324,63 @@ def rule_e(model, rep):
               site("HtpasswdFile.check_password"), "verify_and_update; store new hash when ok", "deprecated hashes are upgraded on successful check")
     fn = model.func(AP, "HtpasswdFile.set_password")
     rep.check("hash = self.context.hash(password)" in qtext(fn), R, site("HtpasswdFile.set_password"), "self.context.hash(password)", "password hashed by the file's context")
+
+
+def rule_j(model, rep):
+    """a record line must not be mistaken for a comment: the loader skips every line whose lstrip() starts with '#', and a record line
+    starts with the user name, so such a name must be refused when it is set"""
+    R = "C16.c-validated-keys"
+    ll = model.func(AP, "_CommonFile._load_lines")
+    skips = has_if(ll, "not tmp or tmp.startswith(_BHASH)") and has_stmt(ll, "tmp = line.lstrip()")
+    eu = model.func(AP, "_CommonFile._encode_user")
+    refuse = [n for n in walk_no_nested(eu) if isinstance(n, ast.If) and "lstrip().startswith(_BHASH)" in ast.unparse(n.test) and n.body and isinstance(n.body[-1], ast.Raise) and "ValueError" in ast.unparse(n.body[-1])]
+    rep.check(skips, R, site("_CommonFile._load_lines") + " comment rule", "lines whose lstrip() starts with '#' are skipped", "loader's comment rule located")
+    rep.check(bool(refuse), R, site("_CommonFile._encode_user") + " comment-like name", "user names whose lstrip() starts with '#' are not refused",
+              "a user name that would make its record line look like a comment is refused when it is set",
+              witness="HtpasswdFile().set_password('#bob', 'pw'): users() == ['#bob'], but from_string(to_string()).users() == [] -- the record is read back as a comment")
+
+
+def rule_k(model, rep):
+    """the hash field: (1) what is written must be parseable back -- the record parsers split on ':' and strip the line end, so a stored hash
+    containing NL/CR/':' or ending in blanks does not round-trip; with the `plaintext` scheme the hash *is* the password;
+    (2) HtpasswdFile talks to a context that contains a scheme with an `encoding` context keyword (plaintext) but never passes the file encoding"""
+    R = "C16.k-hash-field"
+    for cls in ("HtpasswdFile", "HtdigestFile"):
+        fn = model.func(AP, cls + ".set_hash")
+        validated = any(isinstance(c, ast.Call) and ast.unparse(c.func) in ("self._encode_field", "self._validate_hash", "self._check_hash") and c.args and ast.unparse(c.args[0]) == "hash" for c in walk_no_nested(fn)) \
+            or any(isinstance(n, ast.If) and "hash" in ast.unparse(n.test) and n.body and isinstance(n.body[-1], ast.Raise) for n in walk_no_nested(fn))
+        if cls == "HtpasswdFile":
+            # only HtpasswdFile can be given a scheme whose hash is free text (plaintext is in htpasswd_context)
+            if validated:
+                rep.hold(R, site(cls + ".set_hash"), "hash field validated before it is stored")
+            else:
+                rep.violation(R, site(cls + ".set_hash"), "self._set_record(user, hash)  # hash stored without checking for NL / CR / ':' / trailing blanks",
+                              "the hash field is written verbatim although the record parser splits on ':' and strips the line end; with the plaintext scheme (part of htpasswd_context) the field is the password itself",
+                              witness="HtpasswdFile(default_scheme='plaintext').set_password('alice', 'x\\nroot:owned') exports b'alice:x\\nroot:owned\\n' (a second account appears on reload); "
+                                      "password 'a:b' makes the export unloadable; password 'secret ' no longer verifies after reload")
+        else:
+            rep.hold(R, site(cls + ".set_hash"), "htdigest hashes are hex digests produced by the htdigest handler (no free-text scheme)")
+    # encoding forwarded?
+    from pv.handlers import HandlerTable
+    table = HandlerTable(model)
+    pt = table.get("plaintext")
+    ck = table.const(pt, "context_kwds") if pt is not None else ()
+    calls = []
+    for q in ("HtpasswdFile.set_password", "HtpasswdFile.check_password"):
+        f2 = model.func(AP, q)
+        for c in walk_no_nested(f2):
+            if isinstance(c, ast.Call) and ast.unparse(c.func) in ("self.context.hash", "self.context.verify_and_update", "self.context.verify"):
+                calls.append((q, c))
+    if len(calls) < 2:
+        rep.undecided(R, site("HtpasswdFile"), "context calls not found")
+    missing = [(q, c) for q, c in calls if not any(k.arg == "encoding" for k in c.keywords)]
+    if isinstance(ck, tuple) and "encoding" in ck and missing:
+        q, c = missing[0]
+        rep.violation(R, site("HtpasswdFile") + " encoding", f"{ast.unparse(c)}  # no encoding=self.encoding, but `plaintext` takes an `encoding` context keyword",
+                      "passwords are handed to the context as bytes in the file encoding, but the plaintext scheme decodes bytes as UTF-8 unless it is told the encoding",
+                      witness="HtpasswdFile.from_string(b'alice:caf\\xe9\\n', encoding='latin-1').check_password('alice', 'caf\\xe9') raises UnicodeDecodeError instead of answering True")
+    else:
+        rep.hold(R, site("HtpasswdFile") + " encoding", "file encoding forwarded to the context (or no scheme needs it)")
 
 
 def rule_h(model, rep):
@@ -434,3 +508,5 @@ def run(model, rep):
     rule_f(model, rep)
     rule_gh(model, rep)
     rule_h(model, rep)
+    rule_j(model, rep)
+    rule_k(model, rep)
